@@ -5,6 +5,7 @@ import AkVerif.Model.Sticky
 import AkVerif.Model.StickyAlg
 import Driver.WireIO
 import Driver.ConnIO
+import Driver.ProducerIO
 import Driver.GroupIO
 import Driver.ConsumeIO
 import Driver.ScramIO
@@ -24,6 +25,8 @@ def dispatch (toks : List String) : Option String :=
   | "c08" :: rest => Iso.handle rest
   | "c11" :: rest => WireIO.handle rest
   | "c12" :: rest => ConnIO.handle rest
+  | "c01" :: rest => ProducerIO.handleC01 rest
+  | "c02" :: rest => ProducerIO.handleC02 rest
   | "c04" :: rest => GroupIO.handle04 rest
   | "c05" :: rest => GroupIO.handle05 rest
   | "c03" :: rest => ConsumeIO.handle rest
